@@ -69,6 +69,14 @@ def run(chk):
             if d and other:
                 predicted.append("%s differs from the feature declarations by %s" % (name, sorted(d)[:12]))
                 implicated.update(d & fs)
+        for row in g["rows"]:
+            if len(set(row)) != 1:
+                predicted.append("message! row %s: feature literal / variant / module / number differ" % row)
+                implicated.update(x for x in row if x in fs)
+        for a, b in g["include_pairs"]:
+            if a != b:
+                predicted.append("include_msg!(msg%d, \"msg%d\")" % (a, b))
+                implicated.update(x for x in (a, b) if x in fs)
         for n in g["chained"]:
             predicted.append("feature msg%d switches other features on" % n)
             implicated.add(n)
